@@ -10,21 +10,34 @@ from pytezos.michelson.instructions.base import dispatch_types
 from pytezos.michelson.instructions.base import format_stdout
 from pytezos.michelson.stack import MichelsonStack
 from pytezos.michelson.types import BoolType
+from pytezos.michelson.types import BytesType
 from pytezos.michelson.types import IntType
 from pytezos.michelson.types import NatType
 
 
+def bytes_bitwise(a: bytes, b: bytes, op: Callable, pad: bool) -> bytes:
+    """Bitwise operation on byte strings aligned on the right: the shorter operand is padded with zeros on the left
+    (OR, XOR) or the longer one is truncated on the left (AND)."""
+    length = max(len(a), len(b)) if pad else min(len(a), len(b))
+    a, b = a.rjust(length, b'\x00')[-length:] if length else b'', b.rjust(length, b'\x00')[-length:] if length else b''
+    return bytes(op((x, y)) for x, y in zip(a, b))
+
+
 def execute_boolean_add(prim: str, stack: MichelsonStack, stdout: List[str], add: Callable):
-    a, b = cast(Tuple[Union[BoolType, NatType], ...], stack.pop2())
+    a, b = cast(Tuple[Union[BoolType, NatType, BytesType], ...], stack.pop2())
     res_type, convert = dispatch_types(
         type(a),
         type(b),
         mapping={
             (BoolType, BoolType): (BoolType, bool),
             (NatType, NatType): (NatType, int),
+            (BytesType, BytesType): (BytesType, bytes),
         },
     )
-    val = add((convert(a), convert(b)))
+    if res_type is BytesType:
+        val = bytes_bitwise(bytes(a), bytes(b), add, pad=True)  # type: ignore
+    else:
+        val = add((convert(a), convert(b)))
     res = res_type.from_value(val)
     stack.push(res)
     stdout.append(format_stdout(prim, [a, b], [res]))
@@ -56,9 +69,13 @@ class AndInstruction(MichelsonInstruction, prim='AND'):
                 (NatType, NatType): (NatType, int),
                 (NatType, IntType): (NatType, int),
                 (IntType, NatType): (NatType, int),
+                (BytesType, BytesType): (BytesType, bytes),
             },
         )
-        res = res_type.from_value(convert(a) & convert(b))
+        if res_type is BytesType:
+            res = res_type.from_value(bytes_bitwise(bytes(a), bytes(b), lambda x: x[0] & x[1], pad=False))  # type: ignore
+        else:
+            res = res_type.from_value(convert(a) & convert(b))
         stack.push(res)
         stdout.append(format_stdout(cls.prim, [a, b], [res]))  # type: ignore
         return cls(stack_items_added=1)
@@ -74,6 +91,7 @@ class NotInstruction(MichelsonInstruction, prim='NOT'):
                 (NatType,): (IntType, lambda x: ~int(x)),
                 (IntType,): (IntType, lambda x: ~int(x)),
                 (BoolType,): (BoolType, lambda x: not bool(x)),
+                (BytesType,): (BytesType, lambda x: bytes(y ^ 0xFF for y in bytes(x))),
             },
         )
         res = res_type.from_value(convert(a))
